@@ -132,8 +132,12 @@ PrefixCRC(z) ==
         a == Args(16, 1, t[1] * 256 + t[2], 2, <<1, 2, 3, 4>>, <<>>, 0, 77)
     IN UNION {{LET R == ReplyTo("rtu", a, <<1, 0>>) IN Exch(cl, a, R, <<Chunk(4), Empty(e), Chunk(Len(R) - 4)>>, "none", 0, 0) :
                   e \in EmptyKinds(cl)} : cl \in {"rtu", "serial"}}
+\* the RTU-over-network client built with only ParseResponseFunc supplied by the caller ("rtuparse"): still an RTU client
+ParseOnly(z) ==
+    LET a == Args(3, 1, 10, 2, <<>>, <<>>, 0, 0) IN
+    UNION {Benign("rtuparse", a, R) : R \in {ReplyTo("rtu", a, <<1, 0>>), ExcReplyTo("rtu", a, 2), ExcReplyTo("rtu", a, 11)}}
 C07Cases(z) ==
-    (IF Part = 0 THEN UNION {HistCases(cl) : cl \in Clients} \cup DefaultBenign(0) \cup SlowWrite(0) \cup PrefixCRC(0) ELSE {}) \cup
+    (IF Part = 0 THEN UNION {HistCases(cl) : cl \in Clients} \cup DefaultBenign(0) \cup SlowWrite(0) \cup PrefixCRC(0) \cup ParseOnly(0) ELSE {}) \cup
     UNION {UNION {Benign(cl, a, ReplyTo(FramingOf(cl), a, v)) : v \in (IF a.fc = 17 THEN F17Variants ELSE {<<1, 0>>})} :
               cl \in Clients, a \in {x \in ReqShapes("s") : InPart(x.fc + 3)}}
     \cup UNION {Benign(cl, a, ReplyTo(FramingOf(cl), a, <<2, 2>>)) : cl \in Clients, a \in {x \in ReqShapes("m") : x.fc \in {1, 2, 3, 4, 23} /\ InPart(x.fc)}}
